@@ -204,7 +204,8 @@ var hostile = []string{"(", "((((((((", ")", "{", "}", "{5}", "{5+}", "{99999999
 	"\x00", "\xff\xfe", "\"", "\\", "[", "]", "*", "%", "\r", "\n", "\r\n", " ", "  ", "NIL", "+", "$", "<0.0>", "<9223372036854775807.9223372036854775807>",
 	"BODY[", "NOT NOT NOT NOT ", "OR OR OR ", "UID ", "a b\r\n", "DONE\r\n", "=", "==", "*\r\n"}
 
-var prefixes = []string{"", "p1 LOGIN u p\r\n", "p1 LOGIN u p\r\np2 SELECT INBOX\r\n", "p1 LOGIN u p\r\np2 SELECT INBOX\r\n"}
+var prefixes = []string{"", "p1 LOGIN u p\r\n", "p1 LOGIN u p\r\np2 SELECT INBOX\r\n", "p1 LOGIN u p\r\np2 SELECT INBOX\r\n",
+	"p1 LOGIN u p\r\np2 ENABLE UTF8=ACCEPT\r\np3 UNAUTHENTICATE\r\np4 LOGIN u p\r\n", "p1 LOGIN u p\r\np2 SELECT INBOX\r\np3 UNAUTHENTICATE\r\np4 AUTHENTICATE PLAIN AHVzZXIAcGFzcw==\r\n"}
 
 func genCommands(t *rapid.T, n int, o cmdgen.Opts) string {
 	var sb strings.Builder
